@@ -44,8 +44,23 @@
      C07_statement_seven_classes
                               parsing yields corrS on the three proved no-base classes of non-special schemes
                               of C01; with it the statement for these start URLs x seven setters x all histories
-   The gap: the host, pathname and href setters, hostname on file URLs, and "every parse outside Known_C01
-   yields records related by corrS" for special schemes (the second clause of C07_statement).
+     C07_related_corrS, C07_spec_parse_invariants, C07_parse_model_extra, C07_parse_all_corrS
+                              parsing yields corrS for EVERY scalar-value input outside Known_C01, special schemes
+                              included (the second clause of C07_statement with R := corrS): from C01_statement_all
+                              (`related` pairs) through a bridge related => corrS whose side conditions are parser
+                              invariants of the two sides; host functions: host_parse_ok
+     C07_seven_all, C07_statement_seven_all
+                              C07_statement restricted to seven setters for every URL parsed outside Known_C01
+     C07_href_equiv, C07_eight_setters_partial, C07_eight_histories, C07_statement_eight_all
+                              href (= C01, outside classes 11-14) up to C01's Overflow arm (a new URL longer than
+                              u32::MAX bytes: the code keeps the old URL); eight setters, all histories
+     C07_host_standard_portless, C07_host_portless_equiv
+                              host on values without a port part (no ':' outside brackets): the Standard's host
+                              setter is its hostname setter there, and so is url::quirks::set_host outside classes
+                              2, 3, 4, 7 of Known_C07 - one assignment preserves corrS
+   The gap: the host setter on values with a port part, the pathname setter, hostname on file URLs (class 4 of
+   Known_C07 covers them all), href values whose URL exceeds u32::MAX bytes, and host_parse_ok in place of
+   hosts_agree.
    It is covered by the fixed-seed differential run implementation <-> specification model of the
    harness (a test). *)
 From Coq Require Import String.
@@ -58,7 +73,9 @@ From RU Require Import Base.Prelude Base.Utf8 Model.AsciiSet Gen.Tables Model.Pe
   Proofs.C02_Enc Proofs.C01_EqPath Proofs.C01_EqClasses Proofs.C01_EqAuth Proofs.C07_EqPathClass Proofs.C07_EqAuthClass
   Model.Host Spec.WhatwgHost Spec.WhatwgHostParse Proofs.C01_EqAuthSpec Proofs.C01_EqAuthModel Proofs.C01_EqClasses2 Proofs.C01_EqAuthHost
   Proofs.C07_EqAuthParse Proofs.C07_EqAuthHost
-  Proofs.C07_SpecHost Proofs.C07_EqHostname Proofs.C07_EqSeven.
+  Proofs.C07_SpecHost Proofs.C07_EqHostname Proofs.C07_EqSeven
+  Proofs.C02_AuthParts Proofs.C03_ReachParts Proofs.C01_EqRef Proofs.C07_EqRel Proofs.C07_SpecInv Proofs.C07_ParseExtra Proofs.C07_EqParseAll
+  Proofs.C07_SpecHost2 Proofs.C07_EqHostNoPort.
 
 (* ---------- the statement ---------- *)
 
@@ -644,7 +661,9 @@ Proof.
     as (u & su & A & B & C).
   exists u, su. split; [exact A|]. split; [exact B|]. split; [exact C|].
   split; [cbn [six_ops six]; repeat split; repeat constructor; vm_compute; auto|].
-  revert A. vm_compute. intros A. injection A as <-. vm_compute. repeat split.
+  assert (exists x, toy_parse (str "https://u:p@h:81/a?q#f") = Some x /\ x = u) as (x & E & Ex)
+    by (exists u; split; [exact A | reflexivity]).
+  vm_compute in E. injection E as E. subst u. rewrite <- E. vm_compute. repeat split.
 Qed.
 
 (* ---------- hostname; seven setters ---------- *)
@@ -801,6 +820,264 @@ Proof.
   split; [cbn [seven_ops seven]; repeat split; repeat constructor; vm_compute; auto|].
   eexists. split; [vm_compute; reflexivity|]. split; vm_compute; repeat split.
 Qed.
+
+(* ---------- every URL parsed outside Known_C01; seven setters ---------- *)
+
+(* from the relation of the C01 equivalence to the relation of the C07 equivalence: `related` (well-formed, same
+   ten API strings, same text before the fragment / the query, same cannot-be-a-base flag, spec_valid) gives
+   corrS, given what the ten strings do not determine (parse_extra: host text facts, clean username, "no host =>
+   no credentials, no port, not special" of the model record; port <= 65535 and a host that is the empty host or
+   has a non-empty text on the Standard's side), a scheme other than "file" and a host on special records.  The
+   layout flags of corr ("//", '@', "/." marker, an empty password) are read off the two equal serializations. *)
+Theorem C07_related_corrS : forall dbg shs u su,
+  related dbg shs u su -> parse_extra dbg shs u su ->
+  list_eqb (su_scheme su) str_file = false ->
+  (is_special su = true -> opt_is_some (su_host su) = true) ->
+  corrS dbg shs u su.
+Proof. exact related_corrS. Qed.
+Check C07_related_corrS : forall dbg shs u su,
+  related dbg shs u su -> parse_extra dbg shs u su ->
+  list_eqb (su_scheme su) str_file = false ->
+  (is_special su = true -> opt_is_some (su_host su) = true) ->
+  corrS dbg shs u su.
+Print Assumptions C07_related_corrS.
+
+(* two invariants of the Standard's basic URL parser (no base, no state override), for every input and host
+   parser: the host of the result is null, the empty host or a result of the host parser; the port is <= 65535 *)
+Theorem C07_spec_parse_invariants : forall shp input su,
+  spec_basic_url_parse shp input None = BDone su ->
+  match su_host su with
+  | None => True
+  | Some x => x = SEmpty \/ exists o s, host_parsing shp o s = Some x
+  end
+  /\ match su_port su with Some x => x <= 65535 | None => True end.
+Proof. exact spec_parse_uinv. Qed.
+Check C07_spec_parse_invariants : forall shp input su,
+  spec_basic_url_parse shp input None = BDone su ->
+  match su_host su with
+  | None => True
+  | Some x => x = SEmpty \/ exists o s, host_parsing shp o s = Some x
+  end
+  /\ match su_port su with Some x => x <= 65535 | None => True end.
+Print Assumptions C07_spec_parse_invariants.
+
+(* three facts about every record parse_url returns without a base for a scalar-value input whose scheme is not
+   "file" (beyond wf_b and the host text facts): the stored username has no byte of the userinfo percent-encode
+   set; a record with "//" and without host has no credentials, no port and a scheme that is not special *)
+Theorem C07_parse_model_extra : forall dbg hp hpo hd ovr, HostWf hp hpo hd ->
+  forall input u, usv_list input -> input_is_file input = false ->
+  parse_url dbg hp hpo hd ovr None input = POk u -> model_extra dbg u.
+Proof. exact parse_nobase_extra. Qed.
+Print Assumptions C07_parse_model_extra.
+
+(* the second clause of C07_statement with R := corrS for EVERY scalar-value input outside Known_C01 (special
+   schemes included): from C01_statement_all through C07_related_corrS.  Host functions: host_parse_ok =
+   host_fns_ok (the two sides agree) + HostWf (the text of a non-empty host is not empty, is led by neither ':' nor
+   '@' and does not end with '/') + the empty host serialises as the empty string *)
+Theorem C07_parse_all_corrS : forall dbg hp ho hd shp shs, host_parse_ok hp ho hd shp shs ->
+  forall input u, usv_list input -> known_c01 None input = 0 ->
+  parse_url dbg hp ho hd None None input = POk u ->
+  exists su, spec_basic_url_parse shp input None = BDone su /\ corrS dbg shs u su.
+Proof. exact parse_all_corrS. Qed.
+Check C07_parse_all_corrS : forall dbg hp ho hd shp shs, host_parse_ok hp ho hd shp shs ->
+  forall input u, usv_list input -> known_c01 None input = 0 ->
+  parse_url dbg hp ho hd None None input = POk u ->
+  exists su, spec_basic_url_parse shp input None = BDone su /\ corrS dbg shs u su.
+Print Assumptions C07_parse_all_corrS.
+
+(* C07_statement restricted to the seven setters, for EVERY URL parsed outside Known_C01: parse, then any sequence
+   of hostname / protocol / hash / search / username / password / port assignments with any values, each outside
+   Known_C07 - the ten API strings agree at the start and after every prefix *)
+Theorem C07_seven_all : forall dbg hp ho hd shp shs, host_parse_ok hp ho hd shp shs ->
+  forall input u ops, usv_list input -> known_c01 None input = 0 ->
+  parse_url dbg hp ho hd None None input = POk u ->
+  seven_ops ops -> outside_known dbg hp ho hd u ops ->
+  exists su, spec_basic_url_parse shp input None = BDone su
+    /\ model_api dbg u = Some (spec_api_list shs su)
+    /\ forall n, exists u' su',
+         model_run dbg hp ho hd u (firstn n ops) = Some u'
+         /\ spec_run shp su (firstn n ops) = Some su'
+         /\ model_api dbg u' = Some (spec_api_list shs su').
+Proof. exact seven_from_parse_all. Qed.
+Check C07_seven_all : forall dbg hp ho hd shp shs, host_parse_ok hp ho hd shp shs ->
+  forall input u ops, usv_list input -> known_c01 None input = 0 ->
+  parse_url dbg hp ho hd None None input = POk u ->
+  seven_ops ops -> outside_known dbg hp ho hd u ops ->
+  exists su, spec_basic_url_parse shp input None = BDone su
+    /\ model_api dbg u = Some (spec_api_list shs su)
+    /\ forall n, exists u' su',
+         model_run dbg hp ho hd u (firstn n ops) = Some u'
+         /\ spec_run shp su (firstn n ops) = Some su'
+         /\ model_api dbg u' = Some (spec_api_list shs su').
+Print Assumptions C07_seven_all.
+
+(* in the shape of C07_statement: ONE abstraction relation (corrS) with the three clauses, the parse clause now as
+   in C07_statement ("outside Known_C01").  Against C07_statement: seven setters instead of ten, host_parse_ok
+   instead of hosts_agree, inputs and values that are scalar-value strings. *)
+Theorem C07_statement_seven_all : forall dbg hp ho hd shp shs, host_parse_ok hp ho hd shp shs ->
+  exists R : url -> spec_url -> Prop,
+    (forall u su, R u su -> model_api dbg u = Some (spec_api_list shs su))
+    /\ (forall input u, usv_list input -> known_c01 None input = 0 ->
+          parse_url dbg hp ho hd None None input = POk u ->
+          exists su, spec_basic_url_parse shp input None = BDone su /\ R u su)
+    /\ (forall u su s v, R u su -> seven s = true -> usv_list v -> known_c07 u s v = 0 ->
+          exists u' su', model_set dbg hp ho hd s u v = Some u' /\ spec_step shp s su v = Some su' /\ R u' su').
+Proof. exact statement_seven_all. Qed.
+Check C07_statement_seven_all : forall dbg hp ho hd shp shs, host_parse_ok hp ho hd shp shs ->
+  exists R : url -> spec_url -> Prop,
+    (forall u su, R u su -> model_api dbg u = Some (spec_api_list shs su))
+    /\ (forall input u, usv_list input -> known_c01 None input = 0 ->
+          parse_url dbg hp ho hd None None input = POk u ->
+          exists su, spec_basic_url_parse shp input None = BDone su /\ R u su)
+    /\ (forall u su s v, R u su -> seven s = true -> usv_list v -> known_c07 u s v = 0 ->
+          exists u' su', model_set dbg hp ho hd s u v = Some u' /\ spec_step shp s su v = Some su' /\ R u' su').
+Print Assumptions C07_statement_seven_all.
+
+(* the hypothesis on the host functions can be met: every non-empty text that starts with neither ':' nor '@' and
+   does not end with '/' is a domain / an opaque host that serialises as itself *)
+Theorem C07_host_parse_ok_inhabited : host_parse_ok ok_hp ok_ho toy_hd ok_shp toy_shs.
+Proof. exact ok_host_parse_ok. Qed.
+Print Assumptions C07_host_parse_ok_inhabited.
+
+(* ... and a seven-setter history on a special start URL with these functions: " hTTps:\\u:p@H.x:0443/a/../b?q#f",
+   hostname := "y.z/w", port := "81", protocol := "ws", username := "", hash := "" *)
+Example C07_seven_all_inhabited :
+  let input := str " hTTps:\\u:p@H.x:0443/a/../b?q#f" in
+  let ops := [(QHostname, str "y.z/w"); (QPort, str "81"); (QProtocol, str "ws"); (QUsername, []); (QHash, [])] in
+  usv_list input /\ known_c01 None input = 0 /\ seven_ops ops
+  /\ exists u, parse_url true ok_hp ok_ho toy_hd None None input = POk u
+       /\ outside_known true ok_hp ok_ho toy_hd u ops
+       /\ option_map q_href (model_run true ok_hp ok_ho toy_hd u ops) = Some (str "ws://:p@y.z:81/b?q").
+Proof.
+  cbv zeta. split; [repeat constructor; vm_compute; auto|]. split; [vm_compute; reflexivity|].
+  split; [cbn [seven_ops seven]; repeat split; repeat constructor; vm_compute; auto|].
+  eexists. split; [vm_compute; reflexivity|]. split; vm_compute; repeat split.
+Qed.
+
+(* ---------- href; eight setters ---------- *)
+
+(* href: the parser without a base.  Outside classes 11-14 of Known_C07 (the value is in Known_C01) the href setter
+   is the Standard's on every corrS-related pair: both parsers fail (URL unchanged on both sides), or both succeed
+   with corrS-related records - EXCEPT the one arm of C01 that is no agreement: a new URL whose serialization is
+   longer than u32::MAX bytes (the code answers ParseError::Overflow and keeps the old URL, the Standard sets the
+   new one); href_fits excludes it (a value of more than 4 GiB). *)
+Theorem C07_href_equiv : forall dbg hp ho hd shp shs, host_parse_ok hp ho hd shp shs ->
+  forall u su v, corrS dbg shs u su -> usv_list v -> known_c07 u QHref v = 0 -> href_fits shp shs v ->
+  exists u' su', model_set dbg hp ho hd QHref u v = Some u' /\ spec_step shp QHref su v = Some su'
+    /\ corrS dbg shs u' su'.
+Proof. exact href_step. Qed.
+Check C07_href_equiv : forall dbg hp ho hd shp shs, host_parse_ok hp ho hd shp shs ->
+  forall u su v, corrS dbg shs u su -> usv_list v -> known_c07 u QHref v = 0 ->
+  match spec_basic_url_parse shp v None with
+  | BDone su' => nlen (get_href shs su') <= U32_MAX_P
+  | _ => True
+  end ->
+  exists u' su', model_set dbg hp ho hd QHref u v = Some u' /\ spec_step shp QHref su v = Some su'
+    /\ corrS dbg shs u' su'.
+Print Assumptions C07_href_equiv.
+
+(* PARTIAL C07_statement: one assignment through any of EIGHT setters (the seven and href) preserves corrS ... *)
+Theorem C07_eight_setters_partial : forall dbg hp ho hd shp shs, host_parse_ok hp ho hd shp shs ->
+  forall u su s v, corrS dbg shs u su -> (seven s = true \/ (s = QHref /\ href_fits shp shs v)) -> usv_list v ->
+  known_c07 u s v = 0 ->
+  exists u' su', model_set dbg hp ho hd s u v = Some u' /\ spec_step shp s su v = Some su' /\ corrS dbg shs u' su'.
+Proof. exact eight_step. Qed.
+Check C07_eight_setters_partial : forall dbg hp ho hd shp shs, host_parse_ok hp ho hd shp shs ->
+  forall u su s v, corrS dbg shs u su -> (seven s = true \/ (s = QHref /\ href_fits shp shs v)) -> usv_list v ->
+  known_c07 u s v = 0 ->
+  exists u' su', model_set dbg hp ho hd s u v = Some u' /\ spec_step shp s su v = Some su' /\ corrS dbg shs u' su'.
+Print Assumptions C07_eight_setters_partial.
+
+(* ... and so does every history of them: the ten API strings agree after every prefix *)
+Theorem C07_eight_histories : forall dbg hp ho hd shp shs, host_parse_ok hp ho hd shp shs ->
+  forall ops u su, corrS dbg shs u su -> eight_ops shp shs ops -> outside_known dbg hp ho hd u ops ->
+  forall n, exists u' su',
+    model_run dbg hp ho hd u (firstn n ops) = Some u'
+    /\ spec_run shp su (firstn n ops) = Some su'
+    /\ corrS dbg shs u' su'
+    /\ model_api dbg u' = Some (spec_api_list shs su').
+Proof. exact eight_histories. Qed.
+Check C07_eight_histories : forall dbg hp ho hd shp shs, host_parse_ok hp ho hd shp shs ->
+  forall ops u su, corrS dbg shs u su -> eight_ops shp shs ops -> outside_known dbg hp ho hd u ops ->
+  forall n, exists u' su',
+    model_run dbg hp ho hd u (firstn n ops) = Some u'
+    /\ spec_run shp su (firstn n ops) = Some su'
+    /\ corrS dbg shs u' su'
+    /\ model_api dbg u' = Some (spec_api_list shs su').
+Print Assumptions C07_eight_histories.
+
+(* in the shape of C07_statement: ONE abstraction relation (corrS), the parse clause as in C07_statement, the
+   one-step clause for eight of the ten setters.  Against C07_statement: host and pathname missing (and hostname on
+   file URLs: class 4 of Known_C07 covers them all); href values whose URL exceeds u32::MAX bytes; host_parse_ok
+   instead of hosts_agree; inputs and values that are scalar-value strings. *)
+Theorem C07_statement_eight_all : forall dbg hp ho hd shp shs, host_parse_ok hp ho hd shp shs ->
+  exists R : url -> spec_url -> Prop,
+    (forall u su, R u su -> model_api dbg u = Some (spec_api_list shs su))
+    /\ (forall input u, usv_list input -> known_c01 None input = 0 ->
+          parse_url dbg hp ho hd None None input = POk u ->
+          exists su, spec_basic_url_parse shp input None = BDone su /\ R u su)
+    /\ (forall u su s v, R u su -> (seven s = true \/ (s = QHref /\ href_fits shp shs v)) -> usv_list v ->
+          known_c07 u s v = 0 ->
+          exists u' su', model_set dbg hp ho hd s u v = Some u' /\ spec_step shp s su v = Some su' /\ R u' su').
+Proof. exact statement_eight_all. Qed.
+Check C07_statement_eight_all : forall dbg hp ho hd shp shs, host_parse_ok hp ho hd shp shs ->
+  exists R : url -> spec_url -> Prop,
+    (forall u su, R u su -> model_api dbg u = Some (spec_api_list shs su))
+    /\ (forall input u, usv_list input -> known_c01 None input = 0 ->
+          parse_url dbg hp ho hd None None input = POk u ->
+          exists su, spec_basic_url_parse shp input None = BDone su /\ R u su)
+    /\ (forall u su s v, R u su -> (seven s = true \/ (s = QHref /\ href_fits shp shs v)) -> usv_list v ->
+          known_c07 u s v = 0 ->
+          exists u' su', model_set dbg hp ho hd s u v = Some u' /\ spec_step shp s su v = Some su' /\ R u' su').
+Print Assumptions C07_statement_eight_all.
+
+(* the hypotheses can be met: on "a://h/p", href := " hTTps:\\u:p@H.x:0443/a/../b?q#f" (fits), then hostname := "y.z" *)
+Example C07_eight_inhabited :
+  let ops := [(QHref, str " hTTps:\\u:p@H.x:0443/a/../b?q#f"); (QHostname, str "y.z")] in
+  eight_ops ok_shp toy_shs ops
+  /\ exists u, parse_url true ok_hp ok_ho toy_hd None None (str "a://h/p") = POk u
+       /\ outside_known true ok_hp ok_ho toy_hd u ops
+       /\ option_map q_href (model_run true ok_hp ok_ho toy_hd u ops) = Some (str "https://u:p@y.z/b?q#f").
+Proof.
+  cbv zeta. split.
+  - cbn [eight_ops]. split; [right; split; [reflexivity|]; unfold href_fits; vm_compute; discriminate|].
+    split; [repeat constructor; vm_compute; auto|]. split; [left; reflexivity|].
+    split; [repeat constructor; vm_compute; auto | exact I].
+  - eexists. split; [vm_compute; reflexivity|]. split; vm_compute; repeat split.
+Qed.
+
+(* ---------- host, on values without a port part ---------- *)
+
+(* the Standard's host setter is its hostname setter on a value whose host-state scan does not stop at a ':' outside
+   brackets (no port part), for a URL whose scheme is not "file" *)
+Theorem C07_host_standard_portless : forall shp su v, list_eqb (su_scheme su) str_file = false ->
+  snd (hscan (is_special su) false [] (notnl v)) = false ->
+  spec_set shp SetHost su v = spec_set shp SetHostname su v.
+Proof. exact spec_host_nocolon. Qed.
+Print Assumptions C07_host_standard_portless.
+
+(* host on such values (host_value_portless: no ':' outside brackets before the first of / ? # and, for special
+   schemes, \), outside classes 2, 3, 4, 7 of Known_C07: url::quirks::set_host parses no new port and refuses the
+   empty host on the same records as set_hostname (class 7, F-C07-8, is exactly where it forgets the password), so it
+   is the Standard's on every corrS-related pair.  GAP: values with a port part. *)
+Theorem C07_host_portless_equiv : forall dbg hp ho hd shp shs, host_fns_ok hp ho hd shp shs ->
+  forall u su v, corrS dbg shs u su -> usv_list v -> known_c07 u QHost v = 0 -> host_value_portless u v = true ->
+  exists u' su', model_set dbg hp ho hd QHost u v = Some u' /\ spec_step shp QHost su v = Some su'
+    /\ corrS dbg shs u' su' /\ model_api dbg u' = Some (spec_api_list shs su').
+Proof. exact host_portless_step_api. Qed.
+Check C07_host_portless_equiv : forall dbg hp ho hd shp shs, host_fns_ok hp ho hd shp shs ->
+  forall u su v, corrS dbg shs u su -> usv_list v -> known_c07 u QHost v = 0 ->
+  negb (host_colon (no_tnl v) (st_is_special (scheme_type_of (u_scheme_or_empty u)))) = true ->
+  exists u' su', model_set dbg hp ho hd QHost u v = Some u' /\ spec_step shp QHost su v = Some su'
+    /\ corrS dbg shs u' su' /\ model_api dbg u' = Some (spec_api_list shs su').
+Print Assumptions C07_host_portless_equiv.
+
+(* the hypotheses can be met: "a://:pw@h:8/p" .host = "x.y/z" *)
+Example C07_host_portless_inhabited :
+  exists u, parse_url true ok_hp ok_ho toy_hd None None (str "a://:pw@h:8/p") = POk u
+    /\ known_c07 u QHost (str "x.y/z") = 0 /\ host_value_portless u (str "x.y/z") = true
+    /\ option_map q_href (model_set true ok_hp ok_ho toy_hd QHost u (str "x.y/z")) = Some (str "a://:pw@x.y:8/p").
+Proof. eexists. split; [vm_compute; reflexivity|]. vm_compute. repeat split. Qed.
 
 (* ---------- clauses of the Standard's setters, for all records and values ---------- *)
 
